@@ -121,3 +121,11 @@ def rule_memreader(ctx, R):
 
 
 RULES.append(("C14.MEMREADER", "the in-memory reader cuts the text at line feeds only and hands the lines out in order", rule_memreader))
+
+
+def _streams(ctx, R):
+    from . import p_c01
+    return p_c01.rule_streams(ctx, R)
+
+
+RULES.append(("C14.STREAMS", "what `run` writes to its first writer reaches the process's standard output, its second the standard error (shared with C01.STREAMS)", _streams))
